@@ -10,7 +10,8 @@ Szs == <<"full", "half", "quarter">>
 \* car: the element that CARRIES the p:ph in the layout - "sp" (an empty placeholder), "pic" / "gf" (a placeholder that was filled in
 \* Slide Master view: a p:pic or a p:graphicFrame with a p:ph; a graphic frame always has its own p:xfrm).  The slide's clone is a p:sp.
 \* nm: how the layout names the placeholder - "u" a name of its own, "same" the name every "same" placeholder of the layout shares (shape
-\* names need not be unique in a document; the names on the NEW slide must be), "amp" a name with markup characters
+\* names need not be unique in a document; the names on the NEW slide must be), "amp" a name with markup characters,
+\* "idx0" a name of its own and the index zero WRITTEN OUT (idx="0": the default, schema-valid, what some producers write)
 PhN(t, i, o, z, g, car, nm) == [type |-> Types[t], idx |-> i, orient |-> o, sz |-> Szs[z], own |-> g, car |-> car, nm |-> nm]
 PhC(t, i, o, z, g, car) == PhN(t, i, o, z, g, car, "u")
 Ph(t, i, o, z, g) == PhC(t, i, o, z, g, "sp")
@@ -19,10 +20,11 @@ Filled == {PhC(t, i, "horz", 1, g, "pic") : t \in {9, 12, 16}, i \in {1, 13}, g 
 \* MODE "single": every single placeholder variant; "pairs": pairs/triples over a reduced variant set
 Variants == IF MODE = "single"
             THEN {Ph(t, i, o, z, g) : t \in DOMAIN Types, i \in {0, 1, 13}, o \in {"horz", "vert"}, z \in DOMAIN Szs, g \in BOOLEAN} \cup Filled
+                 \cup {PhN(t, 0, "horz", 1, g, "sp", "idx0") : t \in {1, 2, 3, 9}, g \in BOOLEAN}
             ELSE {Ph(t, i, "horz", 1, g) : t \in {1, 2, 5, 9, 16}, i \in {0, 1}, g \in BOOLEAN} \cup {Ph(2, 1, "vert", 2, FALSE)}
                  \cup {PhC(16, 1, "horz", 1, TRUE, "pic"), PhC(11, 13, "horz", 1, TRUE, "gf")}
                  \cup {PhN(1, 0, "horz", 1, TRUE, "sp", "same"), PhN(2, 1, "horz", 1, TRUE, "sp", "same"), PhN(2, 13, "horz", 1, FALSE, "sp", "same"),
-                       PhN(9, 1, "horz", 1, TRUE, "sp", "amp")}
+                       PhN(9, 1, "horz", 1, TRUE, "sp", "amp"), PhN(1, 0, "horz", 1, TRUE, "sp", "idx0"), PhN(3, 0, "horz", 1, FALSE, "sp", "idx0")}
 Init == pop = <<>> /\ hist = <<>>
 AddPh == Len(pop) < NPH /\ hist = <<>> /\ \E v \in Variants : pop' = Append(pop, v) /\ UNCHANGED hist
 Act(op, k, j) == [op |-> op, k |-> k, j |-> j]
